@@ -667,9 +667,11 @@ impl Model {
                     if let Some(k) = count {
                         sel.truncate(k);
                     }
+                    // re-reading counts as one more delivery at this instant (Redis: delivery_count++, delivery_time = now)
                     for i in sel.iter() {
                         if let Some(p) = grp.pel.get_mut(i) {
                             p.2 += 1;
+                            p.1 = wall;
                         }
                     }
                     let present: Vec<(Id, Fields)> = sel.iter().filter_map(|i| entries.get(i).map(|f| (*i, f.clone()))).collect();
